@@ -200,3 +200,55 @@ def r12c(F):
 	return tlvloop.check_tlv_loops(F, '12.c', lambda n: n.startswith('lightning::') or n.startswith('<lightning::') or n.startswith('<(lightning::') or n.startswith('<alloc::') or n.startswith('<core::'), floor=300, label='TLV read loops in the lightning crate')
 
 RULES.append(('12.c', 'every TLV read loop: strictly increasing types, unknown-even rejected / odd skipped, records framed, drained and trailing bytes rejected', r12c))
+
+
+# variants that are deliberately NOT restored as themselves: the writer stores the state as it will be after the disconnect a restart implies
+LOSSY = {
+	'lightning::ln::channel::ChannelUpdateStatus': {
+		'DisabledStaged': ('Enabled', 'the last channel_update announced the channel as enabled; the staged disable is re-derived by the timer after load'),
+		'EnabledStaged': ('Disabled', 'the last channel_update announced the channel as disabled; after load the timer must still re-announce it as enabled'),
+	},
+	'lightning::ln::channel::AnnouncementSigsState': {
+		'MessageSent': ('NotSent', 'written as if just disconnected: announcement_signatures not known to be received are re-sent'),
+		'Committed': ('NotSent', 'written as if just disconnected: announcement_signatures not known to be received are re-sent'),
+	},
+}
+
+def r12h(F):
+	"""hand-written one-byte enum codecs: reading what was written gives the variant back, except for the reviewed lossy variants, which
+	come back as the stated canonical variant"""
+	import enumcodec
+	out = []
+	decided = set()
+	n_var = 0
+	for adt, wn, w, rn, rt in enumcodec.codecs(F):
+		short = adt.rsplit('::', 1)[-1]
+		lossy = LOSSY.get(adt, {})
+		probs = []
+		resolved = 0
+		for v, b in sorted(w.items()):
+			got = rt.get(b)
+			if not got:
+				# the arm of the reader for this byte builds the value elsewhere (TLV macro closure): decided by 12.a, not here
+				continue
+			resolved += 1
+			n_var += 1
+			if v in lossy:
+				canon = lossy[v][0]
+				if canon not in got or w.get(canon) != b:
+					probs.append('%s is written as %d and read back as %s (reviewed: must come back as %s - %s)' % (v, b, sorted(got), canon, lossy[v][1]))
+			elif v not in got:
+				probs.append('%s is written as %d and read back as %s' % (v, b, sorted(got)))
+		if resolved == len(w):
+			decided.add(adt)
+		if resolved:
+			ok = not probs
+			out.append(Result('12.h', ok, ('ok:' if ok else 'codec:') + 'enum-byte-codec@' + short, '%s: byte written per variant %s agrees with the reader%s' % (short, dict(sorted(w.items())), '' if ok else ': ' + '; '.join(probs)), resolved, where=F.where(wn)))
+	for adt in LOSSY:
+		if adt not in decided:
+			out.append(Result('12.h', False, 'anchor:lossy-codec@' + adt.rsplit('::', 1)[-1], 'the one-byte codec of %s is no longer recognised' % adt))
+	if len(decided) < 14:
+		out.append(Result('12.h', False, 'floor:enum-codecs', 'only %d fully resolved one-byte enum codecs (expected >= 14)' % len(decided), len(decided)))
+	return out
+
+RULES.append(('12.h', 'hand-written one-byte enum codecs: writer and reader tables agree; lossy variants come back as the reviewed canonical variant', r12h))
